@@ -123,6 +123,8 @@ def _corr_shard(name, shard, nshards, tier, seed):
             op = mpo_op(raw, rng, charged, d=(2 if L >= 4 else None))
             k = int(rng.integers(0, 20))
             br = ['charged' if charged else 'uncharged']
+            if rng.random() < 0.25:
+                op['flip'] = True; br.append('flipped')      # graph.flip() before the conversion (F18)
             if k == 0:
                 op['qd'] = []; br.append('d=0')
             elif k == 1 and len(op['opmap']) > 1:
@@ -162,7 +164,7 @@ def chains_valid(chains, L):
     return True
 
 
-def oracle_mpo(g, qd, opmap, L, ref_dense=None):
+def oracle_mpo(g, qd, opmap, L, ref_dense=None, flip=False):
     """the second sentence of C05 on a consistent graph `g` (a pytenet OpGraph): returns None or a description"""
     from pytenet.mpo import MPO
     d = len(qd)
@@ -181,12 +183,16 @@ def oracle_mpo(g, qd, opmap, L, ref_dense=None):
         for dd in (0, 1):
             if not n.eids[dd] and n.nid != g.nid_terminal[dd]:
                 return None
+    if flip:
+        # the domain was checked on the graph as given; a flipped consistent graph is a consistent graph (C16) and its
+        # conversion must succeed as well (F18)
+        g.flip()
     try:
         mpo = with_alarm(10.0, lambda: MPO.from_opgraph(qd, g, opmap, compute_nid_map=True))
     except CaseTimeout:
         return 'from_opgraph does not terminate within 10 s'
     except Exception as ex:
-        return f'from_opgraph raises {type(ex).__name__}: {ex}'
+        return f'from_opgraph{" of the flipped graph" if flip else ""} raises {type(ex).__name__}: {ex}'
     sym = [[list(w), enc(c)] for w, c in oglib.graph_paths(g).items()]
     want = oglib.dense_of_sym(sym, opmap, d, L) if ref_dense is None else ref_dense
     if len(mpo.A) != L:
@@ -256,7 +262,7 @@ def run_case(case):
         L = g.length
     except Exception:
         return None
-    return oracle_mpo(g, case['qd'], oglib.opmap_of(case['opmap']), L)
+    return oracle_mpo(g, case['qd'], oglib.opmap_of(case['opmap']), L, flip=bool(case.get('flip')))
 
 
 def search(tier, seed, hints, budget_s):
@@ -270,7 +276,7 @@ def search(tier, seed, hints, budget_s):
                 charged = any(any(x != 0 for x in c[1]) for c in op['chains'])
                 cands.append(case_of_chains(op['chains'], op['length'], op['oid_identity'], rng, charged))
             elif op.get('op') == 'og.from_opgraph' and len(op['qd']) > 0:
-                cands.append({'kind': 'graph', 'graph': op['graph'], 'qd': op['qd'], 'opmap': op['opmap']})
+                cands.append({'kind': 'graph', 'graph': op['graph'], 'qd': op['qd'], 'opmap': op['opmap'], 'flip': bool(op.get('flip'))})
 
     def gen():
         yield from cands
@@ -286,13 +292,13 @@ def search(tier, seed, hints, budget_s):
             for _ in range(100):
                 raw, L, charged = oglib.gen_layered_graph(rng, term_twin=False)
                 op = mpo_op(raw, rng, charged, d=2)
-                yield {'kind': 'graph', 'graph': raw, 'qd': op['qd'], 'opmap': op['opmap']}
+                yield {'kind': 'graph', 'graph': raw, 'qd': op['qd'], 'opmap': op['opmap'], 'flip': bool(rng.random() < 0.3)}
     for case in gen():
         r = run_case(case)
         if r is not None:
             key = 'c05:' + str(zlib.crc32(json.dumps(case, sort_keys=True).encode()))
             call = ('OpGraph.from_opchains([OpChain(oids, qnums, coeff, istart) ...], length, oid_identity); MPO.from_opgraph(qd, graph, opmap, compute_nid_map=True)'
-                    if case['kind'] == 'chains' else 'MPO.from_opgraph(qd, OpGraph(nodes, edges, term), opmap, compute_nid_map=True)')
+                    if case['kind'] == 'chains' else 'g = OpGraph(nodes, edges, term); g.flip() if flip; MPO.from_opgraph(qd, g, opmap, compute_nid_map=True)')
             return {'key': key, 'what': r, 'replay': dict(case, call=call, observed=r)}
         if time.time() - t0 > budget_s:
             return None
